@@ -114,36 +114,48 @@ Print Assumptions C19_guard_shape_confines.
 
 (* --- the rollback high-water mark --- *)
 
-(* For every number of concurrent callers of VerifyIndex, every index each of them presents and
-   EVERY interleaving of the atomic steps of their locked critical sections, the recorded mark
-   never decreases. *)
-Theorem C19_hwm_monotone : forall ops m0 sched,
-  nondecreasing m0 (marks true ops (init m0) sched) = true.
+(* For every number of concurrent callers of VerifyIndex, every index each of them presents
+   (root-signed or accepted on the freshness key only) and EVERY interleaving of the atomic
+   steps of their locked critical sections, the recorded mark never decreases. *)
+Theorem C19_hwm_monotone : forall ops s0 sched,
+  nondecreasing (st_mark s0) (marks true ops (init s0) sched) = true.
 Proof. exact hwm_monotone. Qed.
 Print Assumptions C19_hwm_monotone.
 
-(* A call succeeds only at its saving step, for a version not older than the mark in force,
-   after every check passed; the mark becomes exactly that version then (never before). *)
-Theorem C19_hwm_accept_sound : forall ops m0 sched i,
-  let sy := exec true ops (init m0) sched in
+(* A call succeeds only at its saving step, with signatures acceptable for the content on
+   record (root key, or freshness key over unchanged content), for a version not older than
+   the mark in force; the mark becomes exactly that version then - for both kinds of
+   acceptance - and the content on record changes only for a root-verified call. *)
+Theorem C19_hwm_accept_sound : forall ops s0 sched i,
+  let sy := exec true ops (init s0) sched in
   let sy' := tstep true ops sy i in
   pcs sy i <> PDone HAccept -> pcs sy' i = PDone HAccept ->
   (mark sy <= h_version (ops i))%Z /\ mark sy' = h_version (ops i)
-  /\ h_sig_ok (ops i) = true /\ h_fresh (ops i) = true.
+  /\ sig_ok (st_hash (cur sy)) (ops i) = true /\ h_fresh (ops i) = true
+  /\ st_hash (cur sy') = (if h_root (ops i) then Some (h_content (ops i)) else st_hash (cur sy)).
 Proof. exact hwm_accept_sound. Qed.
 Print Assumptions C19_hwm_accept_sound.
 
 (* An index older than the mark that was read is refused. *)
-Theorem C19_hwm_older_refused : forall m o,
-  (h_version o < m)%Z -> exists r, decide_index m o = inl r /\ (r = HRollback \/ r = HIntegrity).
+Theorem C19_hwm_older_refused : forall st o,
+  (h_version o < st_mark st)%Z -> exists r, decide_index st o = inl r /\ (r = HRollback \/ r = HIntegrity).
 Proof. exact hwm_older_refused. Qed.
 Print Assumptions C19_hwm_older_refused.
 
+(* The mark is the maximum accepted version: over any sequential history of calls, and in
+   every reachable state of any interleaving of concurrent callers. *)
+Theorem C19_hwm_mark_is_max_accepted :
+  (forall ops st, st_mark (hfinal st ops) = fold_left Z.max (accepted_versions st ops) (st_mark st))
+  /\ (forall ops s0 sched, max_accepted ops (st_mark s0) (exec true ops (init s0) sched)).
+Proof. split; [exact hrun_mark_is_max|exact hwm_mark_is_max_accepted]. Qed.
+Print Assumptions C19_hwm_mark_is_max_accepted.
+
 (* Sequential calls satisfy the sequential monitor; a batch of concurrent calls whose results
    the acceptor can explain satisfies the batch monitor. *)
-Theorem C19_hwm_monitors : 
-  (forall ops m, seq_monitor m (combine ops (map (fun rm => (accepted (fst rm), snd rm)) (hrun m ops))) = true)
-  /\ (forall m0 log mend, batch_explained m0 log mend = true -> batch_monitor m0 log mend = true).
+Theorem C19_hwm_monitors :
+  (forall ops st, seq_monitor (st_mark st) (st_mark st) (st_hash st)
+     (combine ops (map (fun rm => (accepted (fst rm), st_mark (snd rm))) (hrun st ops))) = true)
+  /\ (forall m0 h0 log mend, batch_explained m0 h0 log mend = true -> batch_monitor m0 h0 log mend = true).
 Proof. split; [exact hrun_monitor|exact batch_explained_monitor]. Qed.
 Print Assumptions C19_hwm_monitors.
 
@@ -184,6 +196,8 @@ Example C19_nonvacuous_install :
 Proof. vm_compute. split; [|reflexivity]. repeat (try (left; reflexivity); right). Qed.
 
 Example C19_nonvacuous_hwm :
-  hrun 0 [mkH 5 true true true; mkH 3 true true true; mkH 5 true true true; mkH 9 false true true]
-  = [(HAccept, 5%Z); (HRollback, 5%Z); (HAccept, 5%Z); (HIntegrity, 5%Z)].
+  map (fun rs => (fst rs, st_mark (snd rs)))
+      (hrun (mkSt 0 None) [mkH 5 true false 1 true true; mkH 9 false true 1 true true;
+                           mkH 7 true false 1 true true; mkH 9 false true 2 true true; mkH 9 false false 1 true true])
+  = [(HAccept, 5%Z); (HAccept, 9%Z); (HRollback, 9%Z); (HIntegrity, 9%Z); (HIntegrity, 9%Z)].
 Proof. vm_compute. reflexivity. Qed.
